@@ -54,6 +54,17 @@ def first_primitive_call(path):
     return None
 
 
+def _find_aggs(v, adt, out, depth=0):
+    if not isinstance(v, tuple) or depth > 8:
+        return
+    if v and v[0] == 'agg' and v[1] == adt:
+        out.append(v)
+        return
+    for x in v:
+        if isinstance(x, tuple):
+            _find_aggs(x, adt, out, depth + 1)
+
+
 def run(C, R):
     R.explanation = ('R1 return correlation: on every MIR path of every poll body, Ready => the handle field is None '
                      'at return, Pending => it is Some (never taken, or restored after take()); R2 every '
@@ -155,6 +166,63 @@ def run(C, R):
                 else:
                     R.fail('C17.R4', [fn['path'], 'cancel-leaves-handle'], 'cancel() returns with the handle still set',
                            '%s:%s' % (fn['file'], fn['line']), {'trace': trace_summary(path)})
+        # R6 a stream starts live: every construction site leaves the inner-future slot empty and the terminated
+        # marker clear (flag false / channel handle Some)
+        from common import scan_aggregates
+        n6 = 0
+        for sadt in (CHANNEL_STREAM, SHARED_STREAM):
+            if sadt not in F.adts:
+                continue
+            ctors = sorted(set(f2['path'] for f2, s2, cl in scan_aggregates(F, sadt) if not cl))
+            if not ctors:
+                raise CheckerError('anchor=C17.R6 no construction site of %s' % sadt)
+            for cp in ctors:
+                for path in E.run(cp):
+                    if path.exit != 'return':
+                        continue
+                    aggs = []
+                    _find_aggs(path.ret, sadt, aggs)
+                    if not aggs:
+                        raise CheckerError('anchor=C17.R6 %s constructs %s but does not return it' % (cp, sadt))
+                    for a in aggs:
+                        n6 += 1
+                        d = dict(a[3])
+                        ok = d.get('future') == NONE
+                        if sadt == SHARED_STREAM:
+                            ok = ok and d.get('is_terminated') == ('const', 0)
+                        else:
+                            ch = d.get('channel')
+                            ok = ok and ch is not None and ch[0] == 'agg' and ch[2] == 'Some'
+                        if ok:
+                            R.ok('C17.R6', '%s|%s starts live' % (cp, sadt.split('::')[-1]))
+                        else:
+                            R.fail('C17.R6', [cp, 'stream-starts-terminated-or-armed'],
+                                   '%s constructs %s with a non-empty inner-future slot or already terminated: %s'
+                                   % (cp, sadt.split('::')[-1], ', '.join('%s=%s' % (k, fmt_val(v)) for k, v in a[3])),
+                                   '%s:%s' % (F.fn(cp)['file'], F.fn(cp)['line']))
+        R.floor('C17.R6 stream-construction-sites[%s]' % cfg, n6, 1 if cfg == 'none' else 2)
+        # R6 (futures): a future is handed out live - its handle is Some at every construction site
+        roles = C.roles(cfg)
+        n6f = 0
+        for fut, info in sorted(roles.futures.items()):
+            ctors = sorted(set(f2['path'] for f2, s2, cl in scan_aggregates(F, fut) if not cl))
+            for cp in ctors:
+                for path in E.run(cp):
+                    if path.exit != 'return':
+                        continue
+                    aggs = []
+                    _find_aggs(path.ret, fut, aggs)
+                    for a in aggs:
+                        n6f += 1
+                        h = dict(a[3]).get(info['handle_field'])
+                        if h is not None and h[0] == 'agg' and h[2] == 'Some':
+                            R.ok('C17.R6', '%s|%s handed out with a live handle' % (cp, fut.split('::')[-1]))
+                        else:
+                            R.fail('C17.R6', [cp, 'future-constructed-without-handle', fut.split('::')[-1]],
+                                   '%s constructs %s with %s = %s: its first poll panics as "polled after completion"'
+                                   % (cp, fut, info['handle_field'], fmt_val(h) if h else None),
+                                   '%s:%s' % (F.fn(cp)['file'], F.fn(cp)['line']))
+        R.floor('C17.R6 future-construction-sites[%s]' % cfg, n6f, 6 if cfg == 'none' else 11)
         # R5 streams
         streams = [fn for fn in F.raw['fns'] if fn.get('name') == 'poll_next']
         R.floor('C17.R5 poll_next-bodies[%s]' % cfg, len(streams), 1 if cfg == 'none' else 2)
